@@ -77,6 +77,11 @@ enum ErrorKind {
         max = u32::MAX
     )]
     TooManyContainerEntries(usize),
+    #[error(
+        "too many nested patterns, {0} is greater than the maximum of {max}",
+        max = i8::MAX
+    )]
+    TooManyNestedPatterns(usize),
     #[error("a type check can't be used on the last catch block in a try expression")]
     TypeCheckOnLastCatchBlock,
     #[error("the result of this `break` expression will be ignored")]
@@ -992,6 +997,11 @@ impl Compiler {
         ctx: CompileNodeContext,
     ) -> Result<()> {
         use Op::*;
+
+        // Elements are addressed with signed 8 bit indices (negative when counting from the end)
+        if args.len() > i8::MAX as usize {
+            return self.error(ErrorKind::TooManyNestedPatterns(args.len()));
+        }
 
         let mut index_from_end = false;
 
@@ -4062,6 +4072,11 @@ impl Compiler {
         ctx: CompileNodeContext,
     ) -> Result<()> {
         use Op::*;
+
+        // Patterns are addressed with signed 8 bit indices (negative when counting from the end)
+        if arm_patterns.len() > i8::MAX as usize {
+            return self.error(ErrorKind::TooManyNestedPatterns(arm_patterns.len()));
+        }
 
         let mut index_from_end = false;
 
